@@ -199,16 +199,71 @@ func TestRoundtrip(t *testing.T) {
 }
 
 // every structure in turn, a fixed number of assignments each (so that none is starved by the random pick)
+//
+// The last few assignments of every structure that has a buffer in its data block give one such buffer a
+// length at which a width or sign slip in a length computation shows: 255/256, 32767/32768 and 65000
+// (the data block holds at most 65535 bytes; the other buffers of that assignment stay tiny). A buffer
+// counted by an 8-bit field stops at 255, one whose length the generator mirrors into a pad at 32000.
 func TestRoundtripEveryStructure(t *testing.T) {
 	s := vf.Begin(t, P, "roundtrip-every-structure")
 	names := smbgen.Names()
-	per := vf.N(25, 400)
+	long := vf.N(2, 24)
+	per := vf.N(25, 400) + long
+	dataFields := map[string][]string{}
+	nLong := 0
+	for _, e := range smbgen.Inventory() {
+		dataFields[e.Name] = smbgen.DataByteFields(e)
+		nLong += len(dataFields[e.Name])
+	}
+	s.Note("%d data-block buffers in %d structures take the long lengths", nLong, len(names))
+	if nLong < 40 {
+		t.Fatalf("INFRA: only %d data-block buffers found: marking of variable-length fields broken", nLong)
+	}
 	idx := 0
 	vf.Rapid(s, len(names)*per, func(t *rapid.T) cmdCase {
 		name := names[(idx/per)%len(names)]
+		k := idx % per
 		idx++
+		if fs := dataFields[name]; k >= per-long && len(fs) > 0 {
+			return genLongCase(t, name, fs)
+		}
 		return genCase(t, name, smbgen.Options{MaxBytes: 48})
-	}, checkRoundtrip, nontrivialCase)
+	}, func(c cmdCase) []vf.Finding {
+		if l := longest(c); l >= 255 {
+			s.Class(fmt.Sprintf("buffer>=%d", map[bool]int{false: 255, true: 32768}[l >= 32768]))
+		}
+		return checkRoundtrip(c)
+	}, nontrivialCase)
+}
+
+func genLongCase(t *rapid.T, name string, fields []string) cmdCase {
+	e, _ := smbgen.ByName(name)
+	cmd := smbgen.New(e)
+	smbgen.Fill(t, cmd, smbgen.Options{MaxBytes: 4, MaxElems: 1})
+	f := fields[rapid.IntRange(0, len(fields)-1).Draw(t, "longField")]
+	lens := []int{255, 256, 32767, 32768, 65000}
+	count, mirrored := smbgen.CountFor(name, f)
+	if mirrored {
+		lens = []int{255, 256, 32000}
+	}
+	if count != "" {
+		if cf, ok := reflect.TypeOf(cmd).Elem().FieldByName(count); ok && smbgen.FixedWidth(cf.Type) == 1 {
+			lens = []int{254, 255}
+		}
+	}
+	smbgen.FillBytes(t, cmd, f, rapid.SampledFrom(lens).Draw(t, "longLen"))
+	return cmdCase{name, smbgen.Snapshot(cmd)}
+}
+
+// longest is the length of the longest byte buffer of a case (base64 in the snapshot: 4 characters per 3 bytes).
+func longest(c cmdCase) int {
+	m := 0
+	for _, raw := range c.Fields {
+		if n := len(raw) * 3 / 4; n > m && len(raw) > 0 && (raw[0] == '"' || raw[0] == '{') {
+			m = n
+		}
+	}
+	return m
 }
 
 // ---- slot locality: one fixed-width field changes only the bytes of its own slot ---------------------------
@@ -302,6 +357,31 @@ func checkOrder(c orderCase) []vf.Finding {
 			out = append(out, vf.F(c.Base.Struct+"."+b.Name, "unowned-bytes-between-adjacent-slots", "%s ends at %d, %d bytes of count fields follow, %s starts at %d", a.Name, a.Start+a.Width, b.Between, b.Name, b.Start))
 		}
 	}
+	// The same rule over every field that can be located, not only the markable fixed-width ones: count
+	// fields are found through the buffer they describe (two consistent assignments that differ in that
+	// buffer's length differ, inside the parameter block, in the count field only) and variable-length
+	// fields by marking their content. Two count fields that trade places, or two strings emitted in
+	// the wrong order by encoder and decoder alike, round-trip perfectly and show only here.
+	located, _ := smbgen.Locate(e, c.Base.Fields)
+	locs := located.Locs
+	have := map[string]bool{}
+	for _, f := range out {
+		have[f.Subject+"\x00"+f.Kind] = true
+	}
+	for i := 1; i < len(locs); i++ {
+		a, b := locs[i-1], locs[i]
+		if b.Start >= a.Start+a.Width {
+			continue
+		}
+		kind := "slots-out-of-declared-order"
+		if b.Start+b.Width > a.Start {
+			kind = "slots-overlap"
+		}
+		if subject := c.Base.Struct + "." + b.Name; !have[subject+"\x00"+kind] {
+			have[subject+"\x00"+kind] = true
+			out = append(out, vf.F(subject, kind, "%s (%s) at [%d,+%d) declared after %s (%s) at [%d,+%d)", b.Name, b.Class, b.Start, b.Width, a.Name, a.Class, a.Start, a.Width))
+		}
+	}
 	return out
 }
 
@@ -310,11 +390,23 @@ func TestSlotOrder(t *testing.T) {
 	names := smbgen.Names()
 	per := vf.N(3, 40)
 	idx := 0
+	// buffers and lists are never empty here: an empty field has no place that could be compared
 	vf.Rapid(s, len(names)*per, func(t *rapid.T) orderCase {
 		name := names[(idx/per)%len(names)]
 		idx++
-		return orderCase{genCase(t, name, smbgen.Options{MaxBytes: 8})}
-	}, checkOrder, func(c orderCase) bool { return len(c.Base.Fields) >= 2 })
+		return orderCase{genCase(t, name, smbgen.Options{MaxBytes: 8, MinBytes: 1, MinElems: 1})}
+	}, func(c orderCase) []vf.Finding {
+		if e, ok := smbgen.ByName(c.Base.Struct); ok {
+			l, _ := smbgen.Locate(e, c.Base.Fields)
+			for _, l := range l.Locs {
+				s.Class("located:" + l.Class)
+			}
+			for _, sk := range l.Skipped {
+				s.Class("not-located:" + sk.Why)
+			}
+		}
+		return checkOrder(c)
+	}, func(c orderCase) bool { return len(c.Base.Fields) >= 2 })
 }
 
 // ---- the factories reach exactly the structures the package defines -----------------------------------------
